@@ -16,6 +16,8 @@ enum { P_TLCP = 0, P_TLS12 = 1, P_TLS13 = 2 };
 extern const char *g_proto_names[3];
 int proto_const(int p);
 
+void sim_ambient_entropy_seed(uint64_t seed);
+
 /* ---------------------------------------------------------------- creds */
 #define MAX_CHAIN 2048
 typedef struct CertSpec {
@@ -41,6 +43,20 @@ typedef struct CredSet {
 	uint8_t cli_chain[MAX_CHAIN + 1024]; size_t cli_chain_len;
 	int ok;
 } CredSet;
+
+typedef struct CredOpts {          /* one deliberate defect in what the prover presents */
+	int prover;                    /* 0: server chain is defective, 1: client chain */
+	int64_t leaf_nb, leaf_na;      /* validity of the prover's leaf(s); 0 = default */
+	int64_t sub_nb[2], sub_na[2];  /* validity of intermediates; 0 = default */
+	int sub_bc[2];                 /* -1 default, else CertSpec.bc value for that intermediate */
+	int sub_pathlen[2];            /* -2 default */
+	int sub_ku[2];                 /* -1 default, else keyUsage bits */
+	int foreign_root;              /* 1: chain hangs under another key with the trusted root's name; 2: other name */
+	int issuer_is_leaf;            /* leaf issued by an end-entity certificate inserted as "CA" */
+	int enc_foreign;               /* TLCP: encryption certificate issued by a foreign CA */
+} CredOpts;
+void credopts_init(CredOpts *o, int prover);
+int creds_derive(const CredSet *good, const CredOpts *o, CredSet *out);
 
 int creds_issue(const CertSpec *spec, const SM2_KEY *subject_key,
 	const Ident *issuer /* NULL = self-signed */, Ident *out);
